@@ -3,12 +3,12 @@
 and try the checks against each one (apply to /repo, run, undo)."""
 import json, os, shutil, subprocess, sys, re
 
-REL = {'C01': ['C01', 'C20', 'C04'], 'C02': ['C02', 'C17', 'C05'], 'C03': ['C03', 'C05'],
-       'C04': ['C04', 'C19'], 'C05': ['C05', 'C03', 'C08'], 'C06': ['C06'],
+REL = {'C01': ['C01', 'C15', 'C07'], 'C02': ['C02', 'C17', 'C14'], 'C03': ['C03', 'C05'],
+       'C04': ['C04', 'C19', 'C15'], 'C05': ['C05', 'C03', 'C08'], 'C06': ['C06'],
        'C07': ['C07', 'C19', 'C02'], 'C08': ['C08', 'C05'], 'C09': ['C09', 'C11'],
        'C10': ['C10', 'C09'], 'C11': ['C11', 'C16'], 'C12': ['C12', 'C14'],
        'C13': ['C13', 'C05'], 'C14': ['C14', 'C12'], 'C15': ['C15', 'C16', 'C02'],
-       'C16': ['C16', 'C15', 'C17'], 'C17': ['C17', 'C02'], 'C18': ['C18'], 'C19': ['C19'],
+       'C16': ['C16', 'C15', 'C17'], 'C17': ['C17', 'C02', 'C16'], 'C18': ['C18', 'C05'], 'C19': ['C19'],
        'C20': ['C20', 'C01']}
 
 
